@@ -128,6 +128,12 @@ def run(ctx):
     elif len(scripts) > 4000:
         scripts = rng.sample(scripts, 4000)
     run_batch(ctx, scripts, "G-programs")
+    # the parse cache every member of a chain shares for one packet (attributes.go)
+    vlib.model_check(ctx, "MC_Attributes.tla", "MC_Attributes.cfg", workers=2)
+    seqs = vlib.generate(ctx, "Gen_Attributes.tla", vlib.cfg_variant(ctx, "Gen_Attributes.cfg", {"L": 4 if ctx.quick else 6}), workers=4)
+    vlib.run_batch(ctx, tag="G-attributes", scripts=seqs, pkg_rel="", pkgname="interceptor", files=["zz_verif_attr_test.go"],
+                   test="TestVerifAttrExec", trace_module="Trace_Attributes.tla",
+                   nontrivial=lambda evs: any(e["a"] == "get" and e["err"] for e in evs))
     # (T) seeded random long chains
     n = 60 if ctx.quick else 600
     scripts = []
